@@ -3,6 +3,8 @@ package processor
 //gosx:file init=github.com/free5gc/chf/cdr/asn replay=engine
 
 import (
+	"os"
+
 	"github.com/gin-gonic/gin"
 
 	chf_context "github.com/free5gc/chf/internal/context"
@@ -153,4 +155,58 @@ func ZZ_C09_ConcurrentUpdates() {
 		reported = on1
 	}
 	vx.Assert("credit conserved at quiescence", zzBalance(zzSupi, rg)+ue.ReservedQuota[rg] == q-cost*reported)
+}
+
+// zzContains: needle occurs in hay (built as one boolean term, no branching
+// on symbolic bytes).
+func zzContains(hay []byte, needle string) bool {
+	found := false
+	nb := []byte(needle)
+	for i := 0; i+len(nb) <= len(hay); i++ {
+		found = vx.Or(found, vx.BytesEq(hay[i:i+len(nb)], nb))
+	}
+	return found
+}
+
+// C09 (c): requests of two DIFFERENT subscribers in flight together (their
+// subscriber locks do not exclude each other), under every interleaving at
+// scheduling points including the file operations of the CDR dump: both are
+// answered 200 and each subscriber's CDR file holds that subscriber's record
+// and nothing of the other's.
+//
+//gosx:property=C09 tier=quick unwind=40 timeout=30000 p.preempt=2 p.preempt.thorough=4
+func ZZ_C09_DifferentSubscribers() {
+	p := zzSetup()
+	zzAccount(zzSupi, 1, 1000000, 10)
+	zzAccount(zzSupi2, 1, 1000000, 10)
+	refA, _ := zzCreate(p, "A", zzSupi)
+	refB, _ := zzCreate(p, "B", zzSupi2)
+	mk := func(l, supi string) models.ChfConvergedChargingChargingDataRequest {
+		u, _ := zzUsageInd(l, 1, 1, 1)
+		zzSmallUsage(&u)
+		return models.ChfConvergedChargingChargingDataRequest{SubscriberIdentifier: supi,
+			MultipleUnitUsage: []models.ChfConvergedChargingMultipleUnitUsage{u}}
+	}
+	reqA, reqB := mk("ua", zzSupi), mk("ub", zzSupi2)
+	cA, cB := &gin.Context{}, &gin.Context{}
+	vx.Config("sched.ioYield", true)
+	vx.Parallel(
+		func() { p.HandleChargingdataUpdate(cA, reqA, refA) },
+		func() { p.HandleChargingdataUpdate(cB, reqB, refB) },
+	)
+	vx.Assert("both updates answered 200", vx.HTTPStatus(cA) == 200 && vx.HTTPStatus(cB) == 200)
+	vx.Assert("no lock left held", vx.LocksHeld() == 0)
+	for i, supi := range []string{zzSupi, zzSupi2} {
+		other := zzSupi2
+		if i == 1 {
+			other = zzSupi
+		}
+		d, err := os.ReadFile("/tmp/" + supi + ".cdr")
+		vx.Assert("each subscriber has a CDR file", err == nil)
+		if err != nil {
+			continue
+		}
+		vx.Assert("a subscriber's CDR file holds that subscriber's record", zzContains(d, supi[5:]))
+		vx.Assert("a subscriber's CDR file holds nothing of the other subscriber", !zzContains(d, other[5:]))
+	}
 }
